@@ -7,7 +7,7 @@ import re
 from ..model import AnalysisError, src
 from ..paths import function_paths, walk_no_defs, calls_in, atoms
 from ..callgraph import fmt
-from .. import sa, ctx as ctxmod, purity
+from .. import abshelp as H, sa, ctx as ctxmod, purity
 from .c01 import error_singletons
 
 
@@ -100,16 +100,15 @@ def run(model, res, tier):
     for need in ('call_function', 'call_variable'):
         if need not in cbs:
             raise AnalysisError('callback %s is not bound into the grammar parser (anchor vanished)' % need)
-    _r1(model, res, c)
-    _r2(model, res, c, cbs['call_function'])
-    _registry_getter(model, res, c)
-    _r3(model, res, c, cbs['call_variable'])
-    _r4(model, res, c)
-    _r5(model, res, c)
-    _r6(model, res, c)
+    H.safely(res, 'R1', 'r1', _r1, model, res, c)
+    H.safely(res, 'R2', 'r2', _r2, model, res, c, cbs['call_function'])
+    H.safely(res, 'R1', 'registry_getter', _registry_getter, model, res, c)
+    H.safely(res, 'R3', 'r3', _r3, model, res, c, cbs['call_variable'])
+    H.safely(res, 'R4', 'r4', _r4, model, res, c)
+    H.safely(res, 'R5', 'r5', _r5, model, res, c)
+    H.safely(res, 'R6', 'r6', _r6, model, res, c)
     name_tokens_verbatim(model, res, c, cbs, 'R8')
     from . import c05
-    from .. import abshelp as H
     H.borrow(res, 'R9', 'argument sequences', lambda tmp: c05._r3(model, tmp, c, c.grammar))
     from . import c03
     c03.instance_state(model, res, c, 'R7')
@@ -256,7 +255,6 @@ def _r2_interp(model, res, c, key):
     summarised (it knows REGISTERED and BOTH): own table first, registry after a miss, #NAME? raised - and propagating - when
     both miss, one invocation with the evaluated arguments.  Returns False when the callback is not followed precisely."""
     from ..absint import Interp, Func, Const, Sym, Err, ListV, Builtin, Raised, Unmodelled
-    from .. import abshelp as H
     m, f = c.cg.funcs[key]
     site = fmt(key)
     em, singles = error_singletons(model)
@@ -272,15 +270,25 @@ def _r2_interp(model, res, c, key):
     if not opaque:
         return False
     results = {}
-    for name in ('OWN', 'BOTH', 'REGISTERED', 'UNKNOWN'):
+    from ..absint import Exc
+    for name in ('OWN', 'BOTH', 'REGISTERED', 'UNKNOWN', 'OWN-REJECTS'):
         it = Interp(model, opaque=opaque)
 
         def call(interp, st, name=name):
             parser, gobj = H.host_objects(interp, model, c)
-            interp.extern['hx:own-fn'] = lambda i2, a, kw: (i2.state.events.append(('own', list(a))), Sym('int', 'OWNRESULT'))[1]
+
+            def own(i2, a, kw):
+                i2.state.events.append(('own', list(a)))
+                if name == 'OWN-REJECTS':
+                    raise Raised(Exc('TypeError', 'takes 1 positional argument but 2 were given'))
+                return Sym('int', 'OWNRESULT')
+            interp.extern['hx:own-fn'] = own
             interp.extern['hx:registry-fn'] = lambda i2, a, kw: (i2.state.events.append(('registry', list(a))), Sym('int', 'REGRESULT'))[1]
-            if name in ('OWN', 'BOTH'):
+            if name in ('OWN', 'BOTH', 'OWN-REJECTS'):
                 interp.call(interp.get_method(parser, 'set_function'), [Const(name), Builtin('hx:own-fn')])
+            if name == 'OWN-REJECTS':
+                # a function that rejects the argument list (here: a blank last slot, as written with a dangling separator)
+                return interp.call(Func(m, f), [parser, Const(name), ListV([Sym('int', 'a0'), Const(None)])])
             return interp.call(Func(m, f), [parser, Const(name), ListV([Sym('int', 'a0'), Sym('int', 'a1')])])
         try:
             outs = it.run(call)
@@ -294,6 +302,18 @@ def _r2_interp(model, res, c, key):
     for name, outs in sorted(results.items()):
         for o in outs:
             calls = [(e[0], [getattr(a, 'name', None) for a in e[1]]) for e in o.events if e[0] in ('own', 'registry')]
+            if name == 'OWN-REJECTS':
+                ok = len(calls) == 1 and len(calls[0][1]) == 2 and o.kind == 'raise'
+                want = 'one call with both slots (the blank one included), and its TypeError raised on (no second attempt with fewer arguments)'
+                case = {'name is': 'set on the parser; the function raises TypeError for the argument list (a0, blank)'}
+                res.ob('R2', site, case, ok, '%s %r calls=%s' % (o.kind, o.value, calls))
+                if not ok:
+                    res.violation('R2', '%s:%s:lookup-rejects' % (key[0], key[1]), m.where(f),
+                                  'a function that raises TypeError must be called once, with every slot of the argument list as written, and the '
+                                  'error reported; the callback %s %r after the calls %s: a retry with a trimmed list runs a side-effecting '
+                                  'function twice and lets a call with a dangling separator succeed with fewer arguments than were written'
+                                  % ('returns' if o.kind == 'return' else 'raises', o.value, calls or 'none'), case=case, func=key[1])
+                continue
             if name in ('OWN', 'BOTH'):
                 ok = o.kind == 'return' and calls == [('own', ['a0', 'a1'])] and getattr(o.value, 'name', None) == 'OWNRESULT'
                 want = 'one call of the function registered on the parser with (a0, a1); its result is the value'
